@@ -2,7 +2,7 @@
    keys, signatures and addresses) to the symbolic transaction of the ledger model (Model/Ledger.v: record [Ledger.tx],
    keys / addresses / hashes as numbers assigned by a numbering).
 
-   The numbering is a parameter (Section variables): any functions will do for the STRUCTURAL facts proved about
+   The numbering is passed as Section variables: any functions will do for the STRUCTURAL facts proved about
    abstractions in Proofs/CodecBridge*.v (version byte, payload kind, amounts, delegate ids, nonce, fee: these fields are
    copied unchanged).  For the abstraction to be faithful to the ledger's semantics a numbering would in addition have to
    satisfy the consistency conditions
